@@ -10,6 +10,7 @@ import (
 	"crypto/sha256"
 	"encoding/json"
 	"fmt"
+	"os"
 	"runtime"
 	"sort"
 	"strings"
@@ -230,46 +231,64 @@ func (w *world) honestPool(maxRound specqbft.Round, k int) []*specqbft.SignedMes
 	var out []*specqbft.SignedMessage
 	seen := map[string]bool{}
 	seenPath := map[string]bool{}
-	for _, st := range qnet.StartAssignments(w.c.Honest) {
-		c := *w.c
-		c.Start, c.MaxRound = st, maxRound
-		pool := qnet.NewPool()
-		wd, init := qnet.NewWorld(&c, pool)
-		s := &qnet.Search{K: k, AllowDeviation: func(_ *qnet.World, e qnet.Event, _ int) bool {
-			return e.Kind == qnet.Isolate || e.Kind == qnet.Timeout || e.Kind == qnet.Drop
-		}}
-		cc := c
-		s.OnEnd = func(end *qnet.World) {
-			// re-run the execution on a fresh world and note what operator me processed
-			p2 := qnet.NewPool()
-			w2, _ := qnet.NewWorld(&cc, p2)
-			var path [][]byte
-			key := ""
-			for _, e := range end.Trace {
-				for _, rep := range w2.Apply(e) {
-					if rep.Op != w.me {
-						continue
-					}
-					if rep.Event.Kind == qnet.Timeout || rep.Event.Kind == qnet.TimeoutAll {
-						path = append(path, nil)
-						key += "T|"
-					} else if rep.Event.Msg >= 0 {
-						b := []byte(p2.List[rep.Event.Msg].Key)
-						path = append(path, b)
-						key += p2.List[rep.Event.Msg].Key + "|"
+	// sources of honest traffic: every operator correct (k deviations), and the leader of round 1
+	// resp. round 2 silent (k+1 deviations) so that justified proposals, prepared round-changes and
+	// traffic of rounds 2 and 3 are in the alphabet
+	type src struct {
+		byz spectypes.OperatorID
+		k   int
+	}
+	srcs := []src{{0, k}}
+	for _, r := range []specqbft.Round{1, 2} {
+		if l := w.c.Leader(r); l != w.me && w.c.N == 4 {
+			srcs = append(srcs, src{l, k + 1})
+		}
+	}
+	for _, sr := range srcs {
+		base := &qnet.Cfg{N: w.c.N, Height: w.c.Height, Byz: sr.byz, MaxRound: maxRound, Role: w.c.Role}
+		base.Init()
+		k := sr.k
+		for _, st := range qnet.StartAssignments(base.Honest) {
+			c := *base
+			c.Start = st
+			pool := qnet.NewPool()
+			wd, init := qnet.NewWorld(&c, pool)
+			s := &qnet.Search{K: k, AllowDeviation: func(_ *qnet.World, e qnet.Event, _ int) bool {
+				return e.Kind == qnet.Isolate || e.Kind == qnet.Timeout || e.Kind == qnet.Drop
+			}}
+			cc := c
+			s.OnEnd = func(end *qnet.World) {
+				// re-run the execution on a fresh world and note what operator me processed
+				p2 := qnet.NewPool()
+				w2, _ := qnet.NewWorld(&cc, p2)
+				var path [][]byte
+				key := ""
+				for _, e := range end.Trace {
+					for _, rep := range w2.Apply(e) {
+						if rep.Op != w.me {
+							continue
+						}
+						if rep.Event.Kind == qnet.Timeout || rep.Event.Kind == qnet.TimeoutAll {
+							path = append(path, nil)
+							key += "T|"
+						} else if rep.Event.Msg >= 0 {
+							b := []byte(p2.List[rep.Event.Msg].Key)
+							path = append(path, b)
+							key += p2.List[rep.Event.Msg].Key + "|"
+						}
 					}
 				}
+				if !seenPath[key] && string(cc.Start[w.me]) == "A" {
+					seenPath[key] = true
+					w.deepPaths = append(w.deepPaths, path)
+				}
 			}
-			if !seenPath[key] && string(cc.Start[w.me]) == "A" {
-				seenPath[key] = true
-				w.deepPaths = append(w.deepPaths, path)
-			}
-		}
-		s.Run(wd, init)
-		for _, m := range pool.List {
-			if !seen[m.Key] {
-				seen[m.Key] = true
-				out = append(out, m.Signed)
+			s.Run(wd, init)
+			for _, m := range pool.List {
+				if !seen[m.Key] {
+					seen[m.Key] = true
+					out = append(out, m.Signed)
+				}
 			}
 		}
 	}
@@ -408,9 +427,14 @@ func (w *world) alphabet(maxRound specqbft.Round, k int) []letter {
 		out = append(out, letter{name: classOf(m), msg: m, base: true})
 	}
 	for _, m := range hp {
-		c := classOf(m)
+		// one representative per content class (type, round, prepared round, justification shape,
+		// value; the signer is not part of the class) is mutated
+		c := classOf(&specqbft.SignedMessage{Message: m.Message, FullData: m.FullData, Signers: []spectypes.OperatorID{0}})
+		if len(m.Signers) > 1 {
+			c = classOf(m)
+		}
 		if classes[c] {
-			continue // one representative per content class is mutated
+			continue
 		}
 		classes[c] = true
 		donor := donorRC
@@ -533,7 +557,7 @@ func explore(r *ev.Run, w *world, start []byte, alpha []letter, maxTransitions i
 	all := []node{{p: init, key: w.key(init)}}
 	frontier := all
 	depth := 0
-	budgetA := maxTransitions / 3
+	budgetA := maxTransitions / 6
 	for len(frontier) > 0 && budgetA > 0 {
 		next, used, complete := expand(frontier, base, budgetA, true)
 		res.Transitions += used
@@ -549,7 +573,7 @@ func explore(r *ev.Run, w *world, start []byte, alpha []letter, maxTransitions i
 	res.HonestDepth = depth
 	// phase B: every mutated letter in every honest-reachable state (breadth-first order), and one
 	// honest step after each accepted mutant
-	next, used, complete := expand(all, mut, maxTransitions-res.Transitions, true)
+	next, used, complete := expand(all, mut, maxTransitions/2-res.Transitions, true)
 	res.Transitions += used
 	res.MutantStatesCovered = len(all)
 	if !complete {
@@ -663,6 +687,13 @@ func main() {
 		c.Init()
 		w := &world{c: c, me: j.me, pool: qnet.NewPool()}
 		alpha := w.alphabet(j.maxRound, j.k)
+		if os.Getenv("VERIF_C06_ALPHA") != "" {
+			for _, l := range alpha {
+				if l.base {
+					fmt.Println("LETTER", l.name)
+				}
+			}
+		}
 		tag := fmt.Sprintf("n=%d operator=%d rounds<=%d", j.n, j.me, j.maxRound)
 		res := explore(r, w, qnet.ValA, alpha, j.cap, tag)
 		r.Add("states", res.States)
